@@ -17,7 +17,7 @@ RULE = (
     "Scalar.GetValue, CreateCopy(unit=), ChangeScalars, Quantity.ConvertScalarValue/Convert, db.Convert by type "
     "and by category on float/int/list/tuple/ndarray(float64,int64) and in exponent form, exponent path e in "
     "{-2,-1,2,3} against the power law, Array.GetValues for list/tuple/ndarray/tuple-of-tuples/list-of-tuples, "
-    "FixedArray.IndexAsScalar/ChangingIndex (Scalar with use_value_unit T/F, tuple, float; also on an int64 ndarray), "
+    "FixedArray.IndexAsScalar/ChangingIndex (Scalar with use_value_unit T/F, tuple, float; indexes from the front and from the end; also on an int64 ndarray), Array/FixedArray conversions asked again after the caller edited an earlier converted container, "
     "each pair preceded by a lookup through the Unknown quantity (which accepts any unit name and converts nothing), "
     "UnitSystemManager.ConvertToCurrent/ConvertScalarToCurrent with and without a current mapping and with an explicitly "
     "given other database; ragged tuple-of-tuples keep their row shape. Metadata: "
@@ -230,6 +230,20 @@ class Checker:
                 c = a.CreateCopy(unit=v)
                 self.cmp("Array[%s].CreateCopy(unit)" % kind, case, c.GetValues(), want, S)
                 self.meta("Array[%s].CreateCopy(unit)" % kind, case, c, cat, qt, v)
+                # what the caller does to a converted container (or to a copy's values) is the caller's business:
+                # the same request asked again still gives the database's numbers
+                # (in its own unit an Array hands out the container it was given, which stays the caller's)
+                if kind != "tuple" and v != u:
+                    for got in (a.GetValues(v), a.CreateCopy(unit=v).GetValues()):
+                        for j in range(len(got)):
+                            got[j] = -7.0
+                    # (for a unit with the same factor the library hands out the Array's own container, as it does for
+                    # the own unit: the oracle is therefore the conversion of what the Array holds *now*)
+                    now = [float(t) for t in a.GetValues()]
+                    want_now = [Convert(qt, u, v, t) for t in now]
+                    S_now = [um.conv_scale(u, v, t) + abs(w) for t, w in zip(now, want_now)]
+                    self.cmp("Array[%s].GetValues after the caller edited an earlier result" % kind, case, a.GetValues(v), want_now, S_now)
+                    self.cmp("Array[%s].CreateCopy(unit) after the caller edited an earlier result" % kind, case, a.CreateCopy(unit=v).GetValues(), want_now, S_now)
             pairs = [(xs[i], xs[(i + 1) % len(xs)]) for i in range(len(xs))]
             flat_w = [w for p in pairs for w in (want[xs.index(p[0])], want[xs.index(p[1])])]
             flat_S = [s for p in pairs for s in (S[xs.index(p[0])], S[xs.index(p[1])])]
@@ -264,11 +278,30 @@ class Checker:
             for kind in ("list", "tuple", "ndarray"):
                 fa = FixedArray(n, gen.as_container(kind, xs), u, cat)
                 self.cmp("FixedArray[%s].GetValues" % kind, case, fa.GetValues(v), want, S)
+                if kind != "tuple" and v != u:
+                    got = fa.GetValues(v)
+                    keep = list(got)
+                    for j in range(len(got)):
+                        got[j] = -7.0
+                    if [float(t) for t in fa.GetValues()] != [float(t) for t in xs]:
+                        # same factor: the container handed out is the FixedArray's own; put the amounts back
+                        for j in range(len(got)):
+                            got[j] = keep[j]
                 for i in range(n):
                     s = fa.IndexAsScalar(i, q_dst)
                     self.cmp("FixedArray[%s].IndexAsScalar" % kind, case, s.GetValue(), want[i : i + 1], S[i : i + 1])
                     self.meta("FixedArray[%s].IndexAsScalar" % kind, case, s, cat, qt, v)
+                    s = fa.IndexAsScalar(i - n, q_dst)
+                    self.cmp("FixedArray[%s].IndexAsScalar(negative index)" % kind, case, s.GetValue(), want[i : i + 1], S[i : i + 1])
                 y = xs[-1]
+                # elements may be addressed from the end as well
+                rn = fa.ChangingIndex(-n, Scalar(y, v, cat), use_value_unit=True)
+                self.cmp("FixedArray[%s].ChangingIndex(-n,Scalar,use_value_unit=True)" % kind, case, list(rn.GetValues()), [y] + want[1:], [abs(y)] + S[1:])
+                rn = fa.ChangingIndex(-1, (y, v))
+                self.cmp("FixedArray[%s].ChangingIndex(-1,tuple)" % kind, case, list(rn.GetValues()), want[:-1] + [y], S[:-1] + [abs(y)])
+                rn = fa.ChangingIndex(-1, Scalar(want[0], v, cat), use_value_unit=False)
+                backn = Convert(qt, v, u, want[0])
+                self.cmp("FixedArray[%s].ChangingIndex(-1,Scalar,use_value_unit=False)" % kind, case, list(rn.GetValues()), xs[:-1] + [backn], [abs(x) for x in xs[:-1]] + [um.conv_scale(v, u, want[0]) + abs(backn)])
                 # Scalar given in v, result adopts the Scalar's unit: all other elements are re-expressed in v
                 r1 = fa.ChangingIndex(0, Scalar(y, v, cat), use_value_unit=True)
                 self.cmp("FixedArray[%s].ChangingIndex(Scalar,use_value_unit=True)" % kind, case, list(r1.GetValues())[1:], want[1:], S[1:])
